@@ -1,6 +1,5 @@
 package main
 
-func runCrash(a []string)  { panic("not built yet") }
 func runNotify(a []string) { panic("not built yet") }
 func runConc(a []string)   { panic("not built yet") }
 func runFlock(a []string)  { panic("not built yet") }
